@@ -9,6 +9,8 @@ Decided clauses:
        have equal role-normalised shapes on the success paths of both; the Poly1305 transcript
        (ad, pad, tag block, ciphertext, pad, lengths) is fed in the same order with the same roles;
        init_push / init_pull initialise the state by the same events.
+  R9.2-order a rekey after a chunk is preceded by the counter increment (the next key is derived from the
+       incremented nonce), also when the common tail is factored into a static helper (inlined).
   R9.3 short input rejected, *mlen_p == 0 on failure (instances of R2.3 / R2.4).
 NOT decided: history-level delivery/ordering, behaviour at counter wrap as arithmetic, interop bytes.
 """
@@ -50,6 +52,11 @@ def run(ctx, chk):
     push = prog.need(PFX + "push", rule="R9.2")
     ipush = prog.need(PFX + "init_push", rule="R9.2")
     ipull = prog.need(PFX + "init_pull", rule="R9.2")
+    # small static helpers defined in the same file are inlined (E1 on the synthetic function), so factoring the common tail
+    # of push / pull into a helper leaves every rule below looking at the same events
+    from .. import inline
+    pull, push = inline.inlined(prog, pull), inline.inlined(prog, push)
+    ipush, ipull = inline.inlined(prog, ipush), inline.inlined(prog, ipull)
     ST = ("arg", 0)
     macbytes = prog.K("crypto_onetimeauth_poly1305_BYTES")
 
@@ -180,6 +187,25 @@ def run(ctx, chk):
                has_tag and has_wrap and has_rekey,
                detail="tag-bit test %s, counter-zero test %s, rekey call %s" % (has_tag, has_wrap, has_rekey),
                key="R9.2-rekey %s" % fn.name)
+
+    # the documented construction increments the counter first and derives the next key from the *incremented* nonce:
+    # on every success path a rekey in the post-MAC tail is preceded by the counter increment
+    nrk = 0
+    for fn in (push, pull):
+        for p in cm.paths(prog, fn):
+            if not (p.kind == "ret" and p.may_return_zero()):
+                continue
+            fin = [e for e in p.calls("crypto_onetimeauth_poly1305_final")]
+            if not fin:
+                continue
+            for rk in [e for e in p.calls(PFX + "rekey") if e.idx > fin[0].idx]:
+                nrk += 1
+                inc = [e for e in p.calls("sodium_increment") if fin[0].idx < e.idx < rk.idx and T.root(e.args[0]) == ST]
+                chk.ob("R9.2-order", fn, "the counter is incremented before the state is rekeyed", bool(inc), loc=fn.loc(rk.iid),
+                       detail="" if inc else "rekey() derives the next key from the nonce (counter || inonce): without the increment it uses "
+                       "the counter of the chunk just processed, not the documented next one", path=None if inc else p,
+                       key="R9.2-order %s" % fn.sname)
+    chk.floor("R9.2-order", "rekeying success paths of push / pull", nrk, 4)
 
     # transcript agreement
     chk.floor("R9.2", "Poly1305 transcript variants of push", len(t_push), 1)
